@@ -8,7 +8,7 @@
    of one port at any position after the last token of that port, the other termination token last
    (ports are FIFO, so these are all the sequences a GatherStep can see when both inputs complete). *)
 From Coq Require Import List NArith ZArith Permutation.
-From SF Require Import Base.Str Base.Dec Tags.Model Gather.Model Gather.Proofs.
+From SF Require Import Base.Str Base.Dec Tags.Model Gather.Model Gather.Proofs Gather.ProofsD.
 Import ListNotations.
 Local Open Scope string_scope. Local Open Scope list_scope.
 
@@ -75,7 +75,37 @@ Theorem C01_sort_canonical : forall (t : tag) es p,
   t <> [] -> elems_ok t es -> Permutation p es -> sort_toks p = es.
 Proof. exact sort_canonical. Qed.
 
+(* ONE GatherStep of depth d >= 1 over d nested scatter levels (what flat_crossproduct builds): the element
+   tokens carry the tags t ++ s, |s| = d, pairwise distinct; [flat_ok] lists them in increasing compare_tags
+   order (ragged shapes allowed); the size token carries their number.  Any legal complete arrival sequence:
+   one output, the flat list in compare_tags order. *)
+Theorem C01_gather_depth_d : forall d (t : tag) (ss : list (list N)) (es : list tok) l1 l2 p1 p2,
+  1 <= d -> t <> [] -> flat_ok d t ss es ->
+  Permutation (l1 ++ l2) (OnSize (render t) (N.of_nat (length es)) :: map OnElem es) ->
+  p1 <> p2 -> (forall a, In a l2 -> port_of a <> p1) ->
+  let s := gather_run d (l1 ++ OnTerm p1 Completed :: l2 ++ [OnTerm p2 Completed]) in
+  gout (gd s) = [ListTok (render t) es] /\ gfinal s = Some Completed.
+Proof. exact gather_depth_d. Qed.
+(* rectangular case: d scatter levels of sizes dims, all index tuples in row-major order, PRODUCT size *)
+Theorem C01_gather_depth_d_product : forall (dims : list nat) (t : tag) (es : list tok) l1 l2 p1 p2,
+  dims <> [] -> t <> [] ->
+  map tag_of es = map (fun s => render (t ++ s)) (grid dims) ->
+  Permutation (l1 ++ l2) (OnSize (render t) (N.of_nat (fold_right Nat.mul 1 dims)) :: map OnElem es) ->
+  p1 <> p2 -> (forall a, In a l2 -> port_of a <> p1) ->
+  let s := gather_run (length dims) (l1 ++ OnTerm p1 Completed :: l2 ++ [OnTerm p2 Completed]) in
+  gout (gd s) = [ListTok (render t) es] /\ gfinal s = Some Completed.
+Proof. exact gather_depth_d_grid. Qed.
+
 (* ---- non-vacuity / headline instances ---- *)
+Example C01_grid_example :
+  map (fun s => render ([0%N] ++ s)) (grid [2; 3]) = ["0.0.0"; "0.0.1"; "0.0.2"; "0.1.0"; "0.1.1"; "0.1.2"].
+Proof. vm_compute. reflexivity. Qed.
+(* depth 2, 2 x 11 elements arriving in reverse order: "0.1.10" after "0.1.9", "0.1.0" after "0.0.10" *)
+Example C01_depth2_reversed :
+  let es := map (fun s => Tok (render ([0%N] ++ s)) "v") (grid [2; 11]) in
+  let arr := map OnElem (rev es) ++ [OnSize "0" 22; OnTerm SizeP Completed; OnTerm ElemP Completed] in
+  gout (gd (gather_run 2 arr)) = [ListTok "0" es].
+Proof. vm_compute. reflexivity. Qed.
 Definition ex_vs : list tok := map (fun v => Tok "0" v) ["a";"b";"c";"d";"e";"f";"g";"h";"i";"j";"k";"l"].
 (* 12 elements arriving in reverse order, size token in the middle, size port terminating early *)
 Example C01_twelve_reversed :
@@ -118,3 +148,5 @@ Print Assumptions C01_nested_two_levels.
 Print Assumptions C01_outer_scatter_feeds_inner.
 Print Assumptions C01_numeric_order.
 Print Assumptions C01_sort_canonical.
+Print Assumptions C01_gather_depth_d.
+Print Assumptions C01_gather_depth_d_product.
